@@ -154,10 +154,8 @@ Section NestClass.
   Definition loop_side (iv : string) (is_while : bool) (body : list stmt) (lo_s L Lf Lb : sset) : bool :=
     let A := assigned_block cic body in
     let S := sinter A (sunion (exposed_uses cic body) lo_s) in
-    ssubset Lf L &&                                         (* what is live at the end of the body is live before the loop *)
     ssubset S Lf &&                                         (* the loop state is live at the end of the body (hence before the loop) *)
     ssubset (sdiff Lb (iv :: S)) (sdiff L A) &&             (* what the body reads and is not state comes from outside, unchanged *)
-    ssubset (sdiff lo_s (iv :: S)) L &&                     (* what is live after the loop and not state was live before it *)
     negb (mem iv lo_s) && negb (mem iv A) &&                (* the counter is not used after the loop, not assigned in it *)
     forallb (fun x => is_none (lookup_assoc x globals)) S && (* no state variable shadows a module-level constant *)
     (negb is_while || negb (mem iv Lb)).                    (* `while`: the body does not read a variable called infinite_loop *)
